@@ -30,19 +30,19 @@ CHECKS = {
             "real runners conform to M on every exported behaviour", RETRY_NOTE, "5/C01"),
     "C02": retry("M |= deadline-envelope monitor for every ordering/equality of elapsed vs deadline at the "
                  "three clock-reading sites, sleeper overshoot and non-sleeping sleeper; plus a differential "
-                 "of each behaviour under three wall-clock patterns", "5/C02"),
+                 "of each behaviour under three wall-clock patterns; attempt timeouts that fire are an outcome of M ('hang', spec/RetryMC_HANGx.cfg, 64 560 behaviours replayed: async runner on the virtual loop clock, sync runner sampled in real time)", "5/C02"),
     "C03": retry("M |= the retry-iff-permitted biconditional (hard stop conditions computed by the monitor from "
                  "its own counters, budget, abort, handler, post-sleep deadline) on the interaction model "
                  "(864 configurations)", "5/C03"),
     "C04": retry("M |= call()-delivery monitor (identity of returned/raised object, RetryExhaustedError fields) "
-                 "for mixed exception/result histories and every stop reason", "5/C04"),
+                 "for mixed exception/result histories and every stop reason; attempt timeouts that fire are an outcome of M ('hang', spec/RetryMC_HANGx.cfg, 64 560 behaviours replayed: async runner on the virtual loop clock, sync runner sampled in real time)", "5/C04"),
     "C05": retry("M |= back-off data-flow monitor: which strategy, its arguments, sanitised and capped value "
                  "propagated to event, handler, before_sleep, sleeper, next prev_sleep_s and next_sleep_s, for all "
                  "sanitiser classes at every retry index and context/legacy signatures", "5/C05"),
     "C11": retry("M |= execute()-outcome monitor (ok/value/stop_reason/attempts/last_*/cause/next_sleep_s, only "
-                 "cancellation kinds propagate)", "5/C11"),
+                 "cancellation kinds propagate); attempt timeouts that fire are an outcome of M ('hang', spec/RetryMC_HANGx.cfg, 64 560 behaviours replayed: async runner on the virtual loop clock, sync runner sampled in real time)", "5/C11"),
     "C13": retry("M |= abort/cancellation monitor: abort polls before every attempt and sleep, nothing after an abort "
-                 "request, cancellation kinds from operation, before_sleep and sleeper propagate unchanged", "5/C13"),
+                 "request, cancellation kinds from operation, before_sleep and sleeper propagate unchanged; attempt timeouts that fire are an outcome of M ('hang', spec/RetryMC_HANGx.cfg, 64 560 behaviours replayed: async runner on the virtual loop clock, sync runner sampled in real time)", "5/C13"),
     "C14": retry("M |= event-stream monitor: retry(i)* then exactly one terminal event, tags vs final failure and "
                  "delivered stop reason, metric/log sink parity, captured timeline = metric/log stream; policy level "
                  "(PolicyCall.tla / PolicyMon.tla): breaker transitions and rejections reported with attempt 0 and "
